@@ -150,6 +150,12 @@ Replay(snapIdx, snapVer, segs) ==
     ReplaySegs([ok |-> TRUE, ix |-> IxOf(snapIdx), highest |-> snapVer, count |-> 0],
                SortedIds(DOMAIN segs), segs, snapVer)
 
+\* the records of a log applied to an index, skipping those a snapshot of version snapVer already contains
+RECURSIVE ApplyRecs(_, _, _)
+ApplyRecs(x, recs, snapVer) ==
+    IF recs = <<>> THEN x
+    ELSE ApplyRecs(IF Head(recs).v > snapVer THEN ApplyOp(x, Head(recs).op) ELSE x, Tail(recs), snapVer)
+
 (***************************************************************************)
 (* Index::load on a disk value d = [settings, snap, segs, ...] opened with *)
 (* num_ops_per_wal = n.  Read-only part of recovery.                       *)
